@@ -44,6 +44,7 @@ class SimTransport:
         self.producerPaused = False
         self.readPaused = False        # pauseProducing() called on us (we are a producer)
         self.written = 0
+        self.history = []              # every write() of this end, for classification by the harness
         self.log = []
 
     # --- ITransport
@@ -53,6 +54,7 @@ class SimTransport:
         if not self.connected:
             return
         if data:
+            self.history.append(bytes(data))
             self.out.append(bytes(data))
             self.written += len(data)
             self._maybe_pause_producer()
